@@ -42,6 +42,17 @@ def outcome_from_summary(i, summ, prop, sched=None, key_extra=""):
     }
 
 
+def status_violation(summ):
+    """a run that was killed by the wall-clock watchdog or died from a signal carries no
+    violation record of its own: synthesise it (callers decide whether it reproduced)"""
+    st = summ.get("status")
+    if st in ("HANG", "CRASH") and not any(v.get("prop") == st for v in summ.get("violations", [])):
+        summ.setdefault("violations", []).append(
+            {"prop": st, "clause": "wall-watchdog" if st == "HANG" else f"signal-{summ.get('signal')}",
+             "site": "child process", "detail": str(summ.get("error")), "op": -1})
+    return summ
+
+
 class SingleRun:
     """mixin-style helper: a property module sets ID and gen_sched(gen)."""
 
@@ -55,10 +66,7 @@ class SingleRun:
         if summ.get("status") in ("HANG", "CRASH"):
             again = ctx.farm.run({"t": "run", "gen": gen}, h)
             if again.get("status") == summ["status"]:
-                summ.setdefault("violations", []).append(
-                    {"prop": summ["status"], "clause": "wall-watchdog" if summ["status"] == "HANG"
-                     else f"signal-{summ.get('signal')}", "site": "child process", "detail":
-                     str(summ.get("error")), "op": -1})
+                status_violation(summ)
             else:
                 summ = {"status": "HARNESS", "error": f"{summ['status']} did not reproduce",
                         "violations": [], "fired": [], "digest": ""}
@@ -68,7 +76,7 @@ class SingleRun:
         return out
 
     def replay(self, ctx, obj):
-        summ = ctx.farm.run({"t": "run", "sched": obj["sched"]}, obj["hashseed"])
+        summ = status_violation(ctx.farm.run({"t": "run", "sched": obj["sched"]}, obj["hashseed"]))
         out = outcome_from_summary(obj.get("case", -1), summ, self.mod.ID, sched=obj["sched"])
         out["hashseed"] = obj["hashseed"]
         return out
@@ -80,7 +88,7 @@ class SingleRun:
         h = outcome["hashseed"]
 
         def runner(s):
-            return ctx.farm.run({"t": "run", "sched": s}, h)
+            return status_violation(ctx.farm.run({"t": "run", "sched": s}, h))
 
         small, runs = _shrink.shrink(sched, sig, runner, budget_s=budget_s)
         return {"hashseed": h, "sched": small, "shrink_runs": runs,
